@@ -214,6 +214,8 @@ def _run_region(ex, con, fsrc, frame, out):
     variables: every obligation generated there (invariant, variant) holds for the real loop whatever
     the rest of the function does, PROVIDED the region reads nothing but the declared variables."""
     reg = con.region
+    if "prefix" in reg:
+        return _run_prefix(ex, con, fsrc, frame, out, reg["prefix"])
     found = _find_loop_block(fsrc.node, reg["loop"])
     if not found:
         raise ContractError("region: loop #%s not found in %s" % (reg["loop"], fsrc.qualname))
@@ -233,6 +235,38 @@ def _run_region(ex, con, fsrc, frame, out):
                 return
             raise
         out.covers[(ex.case_name, "region-end")] = True
+    finally:
+        ex.frames.pop()
+
+
+def _run_prefix(ex, con, fsrc, frame, out, n):
+    """execute only the first `n` statements of the body (after the docstring), from the function's entry state, and
+    check the `returns` clauses on the local state reached there: `out_<name>` is the value of the local / rebound
+    parameter <name> at that point, the bare name is the value passed.  What the rest of the function does with
+    that state is outside this obligation (an audit or an assumption has to say it)."""
+    body = list(fsrc.node.body)
+    if body and isinstance(body[0], ast.Expr) and isinstance(getattr(body[0], "value", None), ast.Constant) \
+            and isinstance(body[0].value.value, str):
+        body = body[1:]
+    stmts = body[:n]
+    ex.frames.append(frame)
+    try:
+        try:
+            ex.exec_block(stmts, frame)
+        except PyExc as pe:
+            out.covers[(ex.case_name, "prefix-raise:%s" % pe.exc.cls.name)] = True
+            if con.only_raises is not None:
+                ex.oblige("raises-only", "only_raises", z3.BoolVal(False), exit_text="prefix-raise:%s" % pe.exc.cls.name,
+                          clause="the first %d statement(s) raise nothing" % n)
+            return
+        text = "prefix-end#%d" % n
+        out.covers[(ex.case_name, text)] = True
+        sf = _spec_frame(frame, ex.pre_params)
+        for k, v in frame.env.items():
+            sf.env["out_" + k] = v
+        ex.cur_spec_frame = sf
+        for label, clause in con.returns_for(ex.case_name).items():
+            ex.oblige("post", label, ex.spec_bool(clause, sf, {}), exit_text=text, clause=clause)
     finally:
         ex.frames.pop()
 
